@@ -658,6 +658,10 @@ def mon_decode(run, script, il, iab, ml):
             want = 255 - v if v & 0x80 else -v
             if int(val) != want:
                 run.violation('raw temperature decoded as %s, formula gives %d (raw %02x)' % (val, want, v), script, {'line': l})
+        elif op in ('rx_get_frequency_error', 'lora_rx_get_packet_snr', 'rx_get_packet_rssi', 'fsk_ook_get_raw_temperature', 'lora_get_bandwidth') and not (
+                (op == 'lora_get_bandwidth' and 0x1d in reads) or (op == 'rx_get_packet_rssi' and am in (FSK, OOK))):
+            # a decoder call whose raw input is not on the bus (served by the cache): not evaluated
+            run.cov['monitor_skipped'] = run.cov.get('monitor_skipped', 0) + 1
         elif op == 'lora_get_bandwidth' and 0x1d in reads:
             run.cov['monitor_checks'] += 1
             bw = BW.get(reads[0x1d] >> 4)
